@@ -904,7 +904,18 @@ pub fn generate(repo: &Path) -> Res<String> {
     s.push_str("/-- the range of the buffer handed to the OS: `init` = `as_init`/`sys_slice`/`sys_slices` (`0..len`),\n    `writable` = `as_uninit`/`sys_slice_mut`/`sys_slices_mut` (`0..capacity`) -/\n");
     s.push_str("inductive Kind where\n  | init | writable\n  deriving DecidableEq, Repr\n\n");
     s.push_str("structure BufParam where\n  dir : Dir\n  vectored : Bool\n  deriving DecidableEq, Repr\n\n");
-    s.push_str("structure Row where\n  op : String\n  driver : Driver\n  /-- the `buffer: T` parameter -/\n  main : Option BufParam\n  /-- the `control: C` parameter (ancillary data) -/\n  ctrl : Option BufParam\n  /-- distinct range kinds of `self.buffer` reached from the impl's method bodies -/\n  mainKinds : List Kind\n  ctrlKinds : List Kind\n  deriving DecidableEq, Repr\n\n");
+    let mut op_names: Vec<String> = vec![];
+    for r in &rows {
+        if !op_names.contains(&r.op) {
+            op_names.push(r.op.clone());
+        }
+    }
+    s.push_str("/-- the op codes found (`unsafe impl OpCode for <Op>`) -/\ninductive Op where\n");
+    for n in &op_names {
+        writeln!(s, "  | {n}").unwrap();
+    }
+    s.push_str("  deriving DecidableEq, Repr\n\n");
+    s.push_str("structure Row where\n  op : Op\n  driver : Driver\n  /-- the `buffer: T` parameter -/\n  main : Option BufParam\n  /-- the `control: C` parameter (ancillary data) -/\n  ctrl : Option BufParam\n  /-- distinct range kinds of `self.buffer` reached from the impl's method bodies -/\n  mainKinds : List Kind\n  ctrlKinds : List Kind\n  deriving DecidableEq, Repr\n\n");
     s.push_str("def rows : List Row := [\n");
     for (i, r) in rows.iter().enumerate() {
         for (k, site) in r.main_kinds.iter().chain(&r.ctrl_kinds) {
@@ -912,7 +923,7 @@ pub fn generate(repo: &Path) -> Res<String> {
         }
         writeln!(
             s,
-            "  ⟨\"{}\", .{}, {}, {}, {}, {}⟩{}  -- {}",
+            "  ⟨.{}, .{}, {}, {}, {}, {}⟩{}  -- {}",
             r.op,
             r.driver,
             lean_buf(&r.main),
@@ -926,9 +937,9 @@ pub fn generate(repo: &Path) -> Res<String> {
     }
     s.push_str("]\n\n");
     s.push_str("/-- what the high-level call does with the returned length -/\ninductive Mapping where\n  | none | advanced | vecAdvanced\n  deriving DecidableEq, Repr\n\n");
-    s.push_str("/-- (source file, function, op it builds, mapping applied to the result) -/\ndef mappings : List (String × String × String × Mapping) := [\n");
+    s.push_str("/-- (source file, function, op it builds, mapping applied to the result) -/\ndef mappings : List (String × String × Op × Mapping) := [\n");
     for (i, (file, f, op, m)) in mappings.iter().enumerate() {
-        writeln!(s, "  (\"{file}\", \"{f}\", \"{op}\", {m}){}", if i + 1 < mappings.len() { "," } else { "" }).unwrap();
+        writeln!(s, "  (\"{file}\", \"{f}\", .{op}, {m}){}", if i + 1 < mappings.len() { "," } else { "" }).unwrap();
     }
     s.push_str("]\n\nend Compio.Gen.OpTable\n\n");
     gen_open_flags(repo, &mut s)?;
